@@ -1318,3 +1318,40 @@ def rule_keyed(ctx):
     if n < 15:
         raise AnalysisError("R-KEYED: only %d typing rules found (15 expected at least)" % n)
     return res
+
+
+PARTIAL_STR = {"starts_with", "ends_with", "contains", "find", "rfind", "matches", "rmatches",
+               "trim_start_matches", "trim_end_matches", "eq_ignore_ascii_case", "to_lowercase", "to_uppercase", "to_ascii_lowercase", "to_ascii_uppercase"}
+
+
+def rule_nameeq(ctx):
+    """R-NAMEEQ: names are compared whole"""
+    fx = ctx.fx
+    res = RuleResult("R-NAMEEQ", "the type checker identifies types, constructors, destructors, definitions and variables by their names; every "
+                     "comparison of names in it is an equality of whole strings (==, a key of a map or set, Vec::contains). A look-up that "
+                     "accepts a prefix, a suffix or a substring (str::starts_with / ends_with / contains / find ..), or that "
+                     "folds the case, takes one name for another: `No` for `Node`, `get` for `get_all` - a constructor is then typed at the "
+                     "wrong declaration, a well-typed program rejected or an ill-typed one accepted")
+    n = 0
+    for key, f in sorted(fx.fns.items()):
+        if f["crate"] != "fun" or "{promoted" in key or "::parser::" in key or key.startswith("fun::parser"):
+            continue
+        if f.get("trait_impl", "").endswith("::Print") or "printer::Print" in key:
+            continue
+        n += 1
+        for b in f["blocks"]:
+            t = b["term"]
+            if t["k"] != "call" or t.get("callee_name") not in PARTIAL_STR:
+                continue
+            c = t.get("callee") or ""
+            if not c.startswith(("core::str", "alloc::str", "alloc::string")):
+                continue
+            ikey = "%s@%s" % (key.split("::{")[0], t["callee_name"])
+            res.inst(ikey, t["sp"]["file"], t["sp"]["line"], "violation")
+            res.violate(ikey, "%s compares a name with str::%s: a look-up that accepts a part of a name (or folds its case) takes one name for another - "
+                        "the checker then types a construct at the wrong declaration" % (key.split("::{")[0].split("::")[-1], t["callee_name"]),
+                        t["sp"]["file"], t["sp"]["line"])
+    if n < 50:
+        raise AnalysisError("R-NAMEEQ: only %d functions of the front end were scanned" % n)
+    res.inst("fun:whole-name comparisons", "lang/fun/src/typing/symbol_table.rs", 1, "ok", "%d functions of the front end (parser and printers aside) scanned, no partial string match" % n)
+    return res
